@@ -24,6 +24,7 @@ type BatchParams struct {
 	CheckSizes bool     `json:"check_sizes"`
 	Corpus     []string `json:"corpus"` // scenario files run first
 	Shrink     bool     `json:"shrink"`
+	Transcripts int     `json:"transcripts"` // record the model-side transcript of this many histories
 }
 
 type Failure struct {
@@ -53,6 +54,7 @@ type BatchResult struct {
 	Stats    Stats       `json:"stats"`
 	Failures []Failure   `json:"failures"`
 	Samples  []*Scenario `json:"samples"`
+	Transcripts [][]string `json:"transcripts,omitempty"`
 }
 
 // diffCodes: message codes occurring in the symmetric difference of two canonical op results.
@@ -98,12 +100,16 @@ func diffCodes(a, b map[int][]string) []int64 {
 }
 
 func runOne(t *testing.T, p *BatchParams, sc *Scenario) (*ImplRun, *ModelRun, *Mismatch, []MonitorViolation) {
+	return runOneT(t, p, sc, nil)
+}
+
+func runOneT(t *testing.T, p *BatchParams, sc *Scenario, transcript *[]string) (*ImplRun, *ModelRun, *Mismatch, []MonitorViolation) {
 	impl := RunImpl(t, sc)
 	mons := checkMonitors(sc, impl)
 	if impl.Panic != "" {
 		return impl, nil, nil, mons
 	}
-	mr, mm, err := RunModel(p.Model, sc, impl, p.CheckSizes)
+	mr, mm, err := RunModelT(p.Model, sc, impl, p.CheckSizes, transcript)
 	if err != nil {
 		mm = &Mismatch{OpIndex: -1, What: "model-error", Detail: err.Error()}
 	}
@@ -189,6 +195,7 @@ func TestBatch(t *testing.T) {
 	res.Stats.Tags = map[string]int{}
 	res.Stats.Nontrivial = map[string]int{}
 	hashes := map[string]bool{}
+	ntr := 0
 	var mu sync.Mutex
 	var wg sync.WaitGroup
 	jobs := make(chan *Scenario)
@@ -204,8 +211,20 @@ func TestBatch(t *testing.T) {
 				if b, err := json.Marshal(sc); err == nil {
 					os.WriteFile(mark, b, 0o644)
 				}
-				impl, mr, mm, mons := runOne(t, &p, sc)
+				var tr *[]string
+				mu.Lock()
+				if ntr < p.Transcripts && corpusOf[sc] == "" {
+					ntr++
+					tr = &[]string{}
+				}
+				mu.Unlock()
+				impl, mr, mm, mons := runOneT(t, &p, sc, tr)
 				os.Remove(mark)
+				if tr != nil && mm == nil {
+					mu.Lock()
+					res.Transcripts = append(res.Transcripts, *tr)
+					mu.Unlock()
+				}
 				var fail *Failure
 				if mm != nil || len(mons) > 0 {
 					key := failureKey(mm, mons)
